@@ -150,6 +150,12 @@ def build(d, args):
     out = os.path.join(outdir, 'out.p8')
     if os.path.exists(out):
         os.unlink(out)
+    if where == 1:
+        # another section taken from a cart that lives in the directory with the decoys: where the packages are looked up
+        # does not depend on the other sources either
+        art = os.path.join(outdir, 'art.p8')
+        open(art, 'wb').write(b'pico-8 cartridge // http://www.pico-8.com\nversion 33\n__lua__\nart=1\n__gfx__\n' + b'1' * 128 + b'\n')
+        args = list(args) + ['--sfx', art]
     cwd0 = os.getcwd()
     try:
         main = os.path.join(d, 'main.lua')
